@@ -113,7 +113,7 @@ def load_known(pid):
 
 def matches(rec, case, res):
     m = rec.get("match", {})
-    if "kind" in m and res.get("kind") != m["kind"]:
+    if "kind" in m and (res.get("kind") not in m["kind"] if isinstance(m["kind"], list) else res.get("kind") != m["kind"]):
         return False
     if "exc" in m and (res.get("exc") not in m["exc"] if isinstance(m["exc"], list) else res.get("exc") != m["exc"]):
         return False
